@@ -97,7 +97,7 @@ def _run_one(exe, lines, timeout):
     return out
 
 
-def run_model(exe, lines, shards=None, timeout=1500):
+def run_model(exe, lines, shards=None, timeout=7200):
     """The extracted model on case lines.  Own runner (vf.run_driver is not used): the stack limit is lifted (extracted
     stdlib list functions are not tail-recursive; whole shipped files are single cases), bytes are latin-1, and the cases
     are dealt round-robin to `shards` processes (results re-assembled in order)."""
@@ -178,8 +178,29 @@ def translate(ctx):
         calls = [n for n in ast.walk(t2) if isinstance(n, ast.Call) and isinstance(n.func, ast.Name) and n.func.id == 'padstring']
         if not calls or any(len(c.args) != 1 or c.keywords for c in calls):
             ctx.refusal('padstring calls in t2incons.py', 'expected padstring(line) with the default length only'); ok = False
+        # does t2incon.read() set the flavour back before reading?  (statement `self.simulator = 'TOUGH2'` at the top level
+        # of read(), before the loop; every other assignment to self.simulator in read() must be the literal 'TOUGHREACT')
+        cls = [n for n in t2.body if isinstance(n, ast.ClassDef) and n.name == 't2incon']
+        rd = [n for n in (cls[0].body if len(cls) == 1 else []) if isinstance(n, ast.FunctionDef) and n.name == 'read']
+        if len(rd) != 1:
+            ctx.refusal('t2incon.read', 'expected exactly one class t2incon with one method read'); ok = False
+        else:
+            def sim_assign(n):
+                return isinstance(n, ast.Assign) and len(n.targets) == 1 and isinstance(n.targets[0], ast.Attribute) and \
+                    isinstance(n.targets[0].value, ast.Name) and n.targets[0].value.id == 'self' and n.targets[0].attr == 'simulator'
+            top, resets, seen_loop = rd[0].body, False, False
+            for n in top:
+                if isinstance(n, (ast.While, ast.For)): seen_loop = True
+                if sim_assign(n):
+                    if seen_loop or not (isinstance(n.value, ast.Constant) and n.value.value == 'TOUGH2'):
+                        ctx.refusal('t2incon.read', 'unexpected top-level assignment to self.simulator (line %d)' % n.lineno); ok = False
+                    resets = True
+            inner = [n for n in ast.walk(rd[0]) if sim_assign(n) and n not in top]
+            if any(not (isinstance(n.value, ast.Constant) and n.value.value == 'TOUGHREACT') for n in inner) or len(inner) != 1:
+                ctx.refusal('t2incon.read', 'expected exactly one nested assignment self.simulator = \'TOUGHREACT\''); ok = False
+            ctx.gen('GenRead', '(* GENERATED from t2incon.read -- do not edit *)\nDefinition read_resets_flavour : bool := %s.\n' % ('true' if resets else 'false'))
     except (OSError, SyntaxError) as e:
-        ctx.refusal('padstring default length', e); ok = False
+        ctx.refusal('padstring default length / t2incon.read', e); ok = False
     return ok
 
 
@@ -246,6 +267,13 @@ def model_chain(exe, path, nv, resets):
     return m, ws
 
 
+def used_read(tmpdir, flavour, path, nv, check):
+    """inc.read(path) on an object that already held a file of the given flavour -> tokens of the object afterwards"""
+    used = orc.used_object(tmpdir, flavour)
+    used.read(path, nv, check)
+    return enc_snapshot(orc.snapshot(used))
+
+
 def same_read(im, m):
     return not (im[0] != m[0] or (im[0] == 'OK' and im[1] != m[1]) or (im[0] == 'RAISE' and im[1] != m[1]))
 
@@ -270,7 +298,8 @@ def correspond(ctx, exe, n_objects, n_oracle, n_inst):
                 [gen_corr_desc(rng, ctx.thorough) for _ in range(n_objects - n_oracle)]
         oracle_descs = descs[:n_oracle]
         f1 = os.path.join(tmpdir, 'a.incon'); f2 = os.path.join(tmpdir, 'b.incon'); f3 = os.path.join(tmpdir, 'c.incon')
-        wl, rl, cl, w2l, wl_b, impl_wb = [], [], [], [], [], []
+        wl, rl, cl, w2l, wl_b, impl_wb, ul = [], [], [], [], [], [], []
+        n_used = 600 if ctx.thorough else 150
         nobj = 0
         nhang = 0
         impl_w, impl_r, impl_w2, ptexts = [], [], [], []
@@ -313,6 +342,11 @@ def correspond(ctx, exe, n_objects, n_oracle, n_inst):
                     impl_w2.append(('RAISE', type(e).__name__))
             else: impl_w2.append(None)
             ptexts.append(text)
+            if r[0] == 'OK' and k < n_used:
+                for flavour in ('TOUGH2', 'TOUGHREACT'):
+                    ru = orc.guarded(lambda: used_read(tmpdir, flavour, f1, d['nv'], d['check']), limit=2)
+                    ul.append(('\t'.join(['U', '1' if flavour == 'TOUGHREACT' else '0', nvtok(d['nv']), '1' if d['check'] else '0', esc(read_text(f1))]),
+                               k, flavour, ('OK', ru[1]) if ru[0] == 'OK' else (ru[0], type(ru[1]).__name__ if ru[0] == 'RAISE' else '')))
             if nhang > max(30, n_objects // 25):
                 ctx.log('the reader did not return on %d of the first %d objects: remaining objects are not run' % (nhang, k + 1))
                 descs = descs[:k + 1]
@@ -354,6 +388,14 @@ def correspond(ctx, exe, n_objects, n_oracle, n_inst):
             if (m[0] == 'OK') != (im[0] == 'OK') or (m[0] == 'OK' and m[1] != im[1]):
                 ctx.disagreement('model-rewrite-vs-implementation-rewrite', orc.desc_to_json(descs[idx]), repr(m)[:600], repr(im)[:600])
         ctx.corr_cases('model-rewrite-vs-implementation-rewrite', len(w2l), skipped_object_holds_nan_or_inf=nnan)
+        # .read(filename) on an object that held another file: the model keeps the flavour of that object and nothing else
+        for (line, k, flavour, im), mo in zip(ul, run_model(exe, [u[0] for u in ul], shards)):
+            m = model_result(mo)
+            if im[0] == 'HANG': ok = m[0] == 'RAISE' and m[1] == 'OutOfFuel'
+            else: ok = (im[0] == m[0]) and im[1] == m[1]
+            if not ok:
+                ctx.disagreement('model-read-into-used-object-vs-inc.read(filename)', dict(orc.desc_to_json(descs[k]), used_object=flavour), repr(m)[:600], repr(im)[:600])
+        ctx.corr_cases('model-read-into-used-object-vs-inc.read(filename)', len(ul))
         lap(ctx, 'model reads and rewrites done')
         # hypotheses and theorem instances, evaluated by the extracted model
         nwf = nidh = nq = nqwf = nfit = nqfit = nst = nqst = 0
@@ -388,7 +430,7 @@ def correspond(ctx, exe, n_objects, n_oracle, n_inst):
         # perturbed files
         pl, pidx = [], []
         texts = [t for t in ptexts if t]
-        nper = min(len(texts), 400 if ctx.thorough else 100)
+        nper = min(len(texts), 300 if ctx.thorough else 100)
         for text in rng.sample(texts, nper):
             for _ in range(3):
                 t = perturb(rng, text)
@@ -452,16 +494,21 @@ def known_witnesses():
           'blocks': [{'name': 'AAA 1', 'nseq': None, 'nadd': None, 'porosity': 0.1, 'perm': None, 'vars': [1.e5, 20.]}]}
     w3 = {'sim': 'TOUGH2', 'reset': True, 'nv': 2, 'check': True, 'timing': None,
           'blocks': [{'name': 'AAA 1', 'nseq': None, 'nadd': None, 'porosity': 0.1, 'perm': None, 'vars': [-9.9999999999996e-100, 20.]}]}
-    return [w1, w2, w3]
+    w4 = {'sim': 'TOUGH2', 'reset': False, 'nv': 2, 'check': True,
+          'timing': {'kcyc': 11100, 'iter': 40102, 'nm': 1, 'tstart': 0.0, 'sumtim': 1500.0},
+          'blocks': [{'name': 'AAA 1', 'nseq': None, 'nadd': None, 'porosity': 0.1, 'perm': None, 'vars': [1.e5, 20.]}]}
+    return [w1, w2, w3, w4]
 
 
 def oracle(ctx, descs, name='write-read-write'):
     tmpdir = tempfile.mkdtemp(prefix='c13o_')
     dist = {'raised_unrepresentable': 0, 'passed': 0}
+    kept = []
     try:
         for nrun, d in enumerate(descs):
             ctx.count(json.dumps(orc.desc_to_json(d), sort_keys=True), nontrivial=orc.nontrivial(d))
             out = orc.roundtrip(d, tmpdir)
+            if len(kept) < (400 if ctx.thorough else 40): kept.append((d, orc.outcome_key(out)))
             bad = orc.evaluate_all(d, out)
             if not bad:
                 if 'write_raised' in out: dist['raised_unrepresentable'] += 1
@@ -473,6 +520,14 @@ def oracle(ctx, descs, name='write-read-write'):
             if len(ctx.new_failures) >= 25:
                 ctx.log('oracle sweep stopped after %d objects: 25 failures outside the known findings' % (nrun + 1))
                 break
+        # results must not depend on earlier calls or on other live objects: the first sets again, in shuffled order,
+        # after everything above was created and used in this process
+        again = list(kept)
+        ctx.rng.shuffle(again)
+        for d, key in again:
+            if orc.outcome_key(orc.roundtrip(d, tmpdir)) != key:
+                ctx.failure(name, 't2incon.roundtrip:outcome-depends-on-earlier-calls', orc.desc_to_json(d), 'a different outcome on the second evaluation', 'the same files and objects as the first time')
+        dist['evaluated_twice'] = len(again)
         for d in descs[:3]: ctx.sample(orc.desc_to_json(d))
     finally:
         shutil.rmtree(tmpdir, ignore_errors=True)
@@ -510,9 +565,10 @@ def oracle_shipped(ctx):
 
 
 def run(ctx):
-    n_oracle = 8000 if ctx.thorough else 300
-    n_extra = 2500 if ctx.thorough else 150
-    n_inst = 1500 if ctx.thorough else 90      # objects on which the theorems' hypotheses and conclusions are evaluated by the model
+    # thorough: sized (by case counts) to finish within ~20 min on a loaded machine with VERIF_JOBS=5
+    n_oracle = 3000 if ctx.thorough else 300
+    n_extra = 1000 if ctx.thorough else 150
+    n_inst = 360 if ctx.thorough else 90      # objects on which the theorems' hypotheses and conclusions are evaluated by the model
     ctx.rule = ('initial-condition sets built through the public API: 0..12 (thorough: ..40) blocks named by mulgrid\'s own naming functions in all 4 conventions '
                 '(either justification and case, atmosphere names, 3-digit columns), 1..12 variables per block from 9 value classes (ordinary, negative, '
                 '3-digit exponents of both signs, zeros, rounding ties, carries into a longer exponent), porosity / permeabilities / nseq-nadd present or absent, permeability triples with zeros (all-zero, partly zero, mixed across blocks; 24 fixed sets + random), '
